@@ -2,7 +2,7 @@
   Lemmas/TrackerBoundaries.lean — output ranges of `transform` / `merge` start and end on char
   boundaries of the new text.
 -/
-import GitAiModel.Lemmas.TrackerNewText
+import GitAiModel.Lemmas.TrackerUnchanged
 namespace GitAi.Tracker
 open GitAi
 
@@ -207,5 +207,334 @@ theorem clampInto_boundary (x d y : Text) (ins : Ins) (hd : ins.data = d) (hst :
         rw [e, isBoundary_interior _ _ _ _ (by omega) hk]
         simp only [Ins.contAt, hst, hd, List.getElem?_eq_getElem hk] at h2
         rw [h2]; rfl
+
+/-! ## moved text, gaps -/
+
+theorem mapMoved_boundaries (x d y : Text) (ins : Ins) (hd : ins.data = d) (hst : ins.start = x.length)
+    (lo hi ts te : Nat) (hts : x.length ≤ ts) (hte1 : x.length ≤ te) (hte2 : te ≤ x.length + d.length)
+    (hteB : isBoundary (x ++ d ++ y) te = true) (hs : isBoundary (x ++ d ++ y) x.length = true)
+    (l : List Attr) :
+    ∀ a ∈ mapMoved ins lo hi ts te l,
+      isBoundary (x ++ d ++ y) a.start = true ∧ isBoundary (x ++ d ++ y) a.stop = true := by
+  induction l with
+  | nil => intro a ha; simp [mapMoved] at ha
+  | cons z zs ih =>
+    intro a ha
+    simp only [mapMoved] at ha
+    split at ha
+    · simp at ha
+    · split at ha
+      · split at ha
+        · simp only [List.mem_cons] at ha
+          rcases ha with rfl | ha
+          · exact ⟨clampInto_boundary x d y ins hd hst _ te (by omega) hte1 hte2 hteB hs,
+              clampInto_boundary x d y ins hd hst _ te (by omega) hte1 hte2 hteB hs⟩
+          · exact ih a ha
+        · exact ih a ha
+      · exact ih a ha
+
+theorem max_cases (R : Nat → Prop) (a b : Nat) (ha : R a) (hb : R b) : R (max a b) := by
+  rcases Nat.le_total a b with h | h
+  · rw [Nat.max_eq_right h]; exact hb
+  · rw [Nat.max_eq_left h]; exact ha
+
+theorem mergeCov_ends (R : Nat → Prop) (l : List (Nat × Nat)) :
+    ∀ (cur : Option (Nat × Nat)), (∀ p ∈ cur.toList, R p.1 ∧ R p.2) → (∀ p ∈ l, R p.1 ∧ R p.2) →
+      ∀ p ∈ mergeCov cur l, R p.1 ∧ R p.2 := by
+  induction l with
+  | nil => intro cur hc _ p hp; simp only [mergeCov] at hp; exact hc p hp
+  | cons q r ih =>
+    intro cur hc hl p hp
+    obtain ⟨s, e⟩ := q
+    have hq := hl (s, e) (by simp)
+    have hr : ∀ p ∈ r, R p.1 ∧ R p.2 := fun p hp => hl p (by simp [hp])
+    simp only [mergeCov] at hp
+    split at hp
+    · exact ih cur hc hr p hp
+    · cases cur with
+      | none => exact ih (some (s, e)) (by simpa using hq) hr p hp
+      | some c0 =>
+        obtain ⟨ls, le⟩ := c0
+        have hc0 := hc (ls, le) (by simp)
+        simp only at hp
+        split at hp
+        · exact ih (some (ls, max le e)) (by simpa using ⟨hc0.1, max_cases R _ _ hc0.2 hq.2⟩) hr p hp
+        · simp only [List.mem_cons] at hp
+          rcases hp with rfl | hp
+          · exact hc0
+          · exact ih (some (s, e)) (by simpa using hq) hr p hp
+
+theorem gapAttrs_ends (G : Nat → Prop) (np len : Nat) (author : Str) (ts : Nat) (hlen : G len)
+    (l : List (Nat × Nat)) (hl : ∀ p ∈ l, G (min p.1 len) ∧ G (min p.2 len)) :
+    ∀ (cur : Nat), G cur → ∀ a ∈ gapAttrs np len author ts cur l,
+      ∃ t1 t2, a.start = np + t1 ∧ a.stop = np + t2 ∧ G t1 ∧ G t2 := by
+  induction l with
+  | nil =>
+    intro cur hcur a ha
+    simp only [gapAttrs] at ha
+    split at ha
+    · simp only [List.mem_singleton] at ha
+      subst ha
+      exact ⟨cur, len, rfl, rfl, hcur, hlen⟩
+    · simp at ha
+  | cons q r ih =>
+    intro cur hcur a ha
+    obtain ⟨s, e⟩ := q
+    have hq := hl (s, e) (by simp)
+    simp only [gapAttrs, List.mem_append] at ha
+    rcases ha with ha | ha
+    · split at ha
+      · simp only [List.mem_singleton] at ha
+        subst ha
+        exact ⟨cur, min s len, rfl, rfl, hcur, hq.1⟩
+      · simp at ha
+    · exact ih (fun p hp => hl p (by simp [hp])) _ (max_cases G _ _ hcur hq.2) a ha
+
+/-! ## the step invariant -/
+
+/-- both ends on char boundaries of `t` -/
+def OnB (t : Text) (a : Attr) : Prop := isBoundary t a.start = true ∧ isBoundary t a.stop = true
+
+/-- move targets start and end on char boundaries of their insertion (or at/after its end) -/
+def TargetsOk (segs : List Seg) (moves : List Move) : Prop :=
+  ∀ m ∈ moves, ∀ i, (insertions segs)[m.insIdx]? = some i → relB i.data m.tgtS ∧ relB i.data m.tgtE
+
+theorem insertions_at (pre post : List Seg) (d : Text) :
+    (insertions (pre ++ ⟨.insert, d⟩ :: post))[insCount pre]? =
+      some ⟨(newOf pre).length, (newOf pre).length + d.length, d⟩ := by
+  simp only [insertions, insertionsFrom_append, Nat.zero_add]
+  rw [List.getElem?_append_right (by rw [insertionsFrom_length]; exact Nat.le_refl _)]
+  simp [insertionsFrom_length, insertionsFrom]
+
+theorem newOf_split (pre post : List Seg) (g : Seg) (h : g.op ≠ .delete) :
+    newOf (pre ++ g :: post) = newOf pre ++ g.data ++ newOf post := by
+  rw [newOf_append]
+  cases hop : g.op
+  · simp [newOf, hop]
+  · exact absurd hop h
+  · simp [newOf, hop]
+
+theorem oldOf_split (pre post : List Seg) (g : Seg) (h : g.op ≠ .insert) :
+    oldOf (pre ++ g :: post) = oldOf pre ++ g.data ++ oldOf post := by
+  rw [oldOf_append]
+  cases hop : g.op
+  · simp [oldOf, hop]
+  · simp [oldOf, hop]
+  · exact absurd hop h
+
+theorem seg_end_boundary (pre post : List Seg) (g : Seg) (hne : g.op ≠ .delete)
+    (h : SegStartsOk (pre ++ g :: post)) :
+    isBoundary (newOf (pre ++ g :: post)) ((newOf pre).length + g.data.length) = true := by
+  have := seg_boundary (pre ++ [g]) post (by simpa using h)
+  rw [List.append_assoc] at this
+  simp only [List.singleton_append] at this
+  have e : (newOf (pre ++ [g])).length = (newOf pre).length + g.data.length := by
+    rw [newOf_append, List.length_append]
+    cases hop : g.op
+    · simp [newOf, hop]
+    · exact absurd hop hne
+    · simp [newOf, hop]
+  rw [e] at this
+  exact this
+
+theorem applyMoves_boundaries (c : Ctx) (segs : List Seg) (hins : c.ins = insertions segs)
+    (hok : SegStartsOk segs) (htg : TargetsOk segs c.moves) (delStart : Nat) (ms : List Move)
+    (hms : ∀ m ∈ ms, m ∈ c.moves) :
+    ∀ (cur : Nat) (out : List Attr) (cur' : Nat) (out' : List Attr),
+      (∀ a ∈ out, OnB (newOf segs) a) → applyMoves c delStart ms cur out = .ok (cur', out') →
+      ∀ a ∈ out', OnB (newOf segs) a := by
+  induction ms with
+  | nil =>
+    intro cur out cur' out' hout h
+    simp only [applyMoves, Except.ok.injEq, Prod.mk.injEq] at h
+    rw [← h.2]; exact hout
+  | cons m r ih =>
+    intro cur out cur' out' hout h
+    have hr : ∀ m ∈ r, m ∈ c.moves := fun x hx => hms x (by simp [hx])
+    simp only [applyMoves] at h
+    split at h
+    · cases h
+    · rename_i insn hget
+      split at h
+      · refine ih hr _ _ _ _ ?_ h
+        intro a ha
+        simp only [List.mem_append] at ha
+        rcases ha with ha | ha
+        · exact hout a ha
+        · have hmem : insn ∈ insertions segs := by rw [← hins]; exact List.mem_of_getElem? hget
+          obtain ⟨pre, post, hsegs, hst, hstop⟩ := mem_insertions_split segs 0 insn hmem
+          have hN : newOf segs = newOf pre ++ insn.data ++ newOf post := by
+            rw [hsegs]; exact newOf_split pre post _ (by simp)
+          have hs : isBoundary (newOf segs) (newOf pre).length = true := by
+            rw [hsegs]; exact seg_boundary pre _ (hsegs ▸ hok)
+          have he : isBoundary (newOf segs) ((newOf pre).length + insn.data.length) = true := by
+            have := seg_end_boundary pre post ⟨.insert, insn.data⟩ (by simp) (hsegs ▸ hok)
+            rw [hsegs]; exact this
+          rw [hins] at hget
+          have hrel := (htg m (hms m (by simp)) insn hget).2
+          rw [Nat.zero_add] at hst
+          have hte : min (insn.start + m.tgtE) insn.stop = (newOf pre).length + min m.tgtE insn.data.length := by
+            rw [hstop, hst]; omega
+          rw [hN] at hs he ⊢
+          have hteB := relB_boundary _ _ _ m.tgtE hrel hs he
+          have := mapMoved_boundaries (newOf pre) insn.data (newOf post) insn rfl hst
+            (delStart + m.srcS) (delStart + m.srcE) (insn.start + m.tgtS)
+            (min (insn.start + m.tgtE) insn.stop) (by omega) (by omega) (by omega)
+            (by rw [hte]; exact hteB) hs _ a ha
+          exact this
+      · exact ih hr _ _ _ _ hout h
+
+theorem rangesForInsertion_mem (moves : List Move) (k : Nat) (rs : List (Nat × Nat))
+    (h : rangesForInsertion moves k = some rs) :
+    ∀ p ∈ rs, ∃ m ∈ moves, m.insIdx = k ∧ p = (m.tgtS, m.tgtE) := by
+  simp only [rangesForInsertion] at h
+  split at h
+  · cases h
+  · cases h
+    intro p hp
+    simp only [List.mem_map, List.mem_filter] at hp
+    obtain ⟨m, ⟨hm, hk⟩, rfl⟩ := hp
+    exact ⟨m, hm, by simpa using hk, rfl⟩
+
+theorem step_boundaries (c : Ctx) (pre post : List Seg) (g : Seg)
+    (hins : c.ins = insertions (pre ++ g :: post)) (hok : SegStartsOk (pre ++ g :: post))
+    (hold : ∀ x ∈ c.old, OnB (oldOf (pre ++ g :: post)) x) (htg : TargetsOk (pre ++ g :: post) c.moves)
+    (s s' : St) (hnp : s.newPos = (newOf pre).length) (hop : s.oldPos = (oldOf pre).length)
+    (hidx : s.insIdx = insCount pre)
+    (hout : ∀ a ∈ s.out, OnB (newOf (pre ++ g :: post)) a) (h : step c s g = .ok s') :
+    ∀ a ∈ s'.out, OnB (newOf (pre ++ g :: post)) a := by
+  have hstart := seg_boundary pre (g :: post) hok
+  simp only [step] at h
+  cases hg : g.op <;> simp only [hg] at h
+  · -- equal
+    cases h
+    intro a ha
+    simp only [List.mem_append] at ha
+    rcases ha with ha | ha
+    · exact hout a ha
+    · have hN := newOf_split pre post g (by simp [hg])
+      have hO := oldOf_split pre post g (by simp [hg])
+      have hend := seg_end_boundary pre post g (by simp [hg]) hok
+      rw [hnp, hop] at ha
+      rw [hN] at hstart hend ⊢
+      refine mapOverlaps_boundaries (oldOf pre) (oldOf post) (newOf pre) (newOf post) g.data _ hstart hend ?_ a ha
+      intro x hx
+      have := hold x (List.mem_of_mem_drop hx)
+      rw [hO] at this
+      exact this
+  · -- delete
+    split at h
+    · rename_i ms hms
+      split at h
+      · cases h
+      · rename_i cur out hap
+        cases h
+        exact applyMoves_boundaries c _ hins hok htg _ ms (movesForDeletion_sub _ _ _ hms) _ _ _ _ hout hap
+    · cases h
+      intro a ha
+      simp only at ha
+      split at ha
+      · simp only [List.mem_append, List.mem_singleton] at ha
+        rcases ha with ha | rfl
+        · exact hout a ha
+        · rw [hnp]; exact ⟨hstart, hstart⟩
+      · exact hout a ha
+  · -- insert
+    have hend := seg_end_boundary pre post g (by simp [hg]) hok
+    have hN := newOf_split pre post g (by simp [hg])
+    split at h
+    · rename_i rs hrs
+      cases h
+      intro a ha
+      simp only [List.mem_append] at ha
+      rcases ha with ha | ha
+      · exact hout a ha
+      · have hgeq : g = ⟨.insert, g.data⟩ := by cases g; simp only at hg; subst hg; rfl
+        have hat := insertions_at pre post g.data
+        rw [← hgeq] at hat
+        have hR : ∀ p ∈ rs, isBoundary (newOf (pre ++ g :: post)) ((newOf pre).length + min p.1 g.data.length) = true ∧
+            isBoundary (newOf (pre ++ g :: post)) ((newOf pre).length + min p.2 g.data.length) = true := by
+          intro p hp
+          obtain ⟨m, hm, hk, rfl⟩ := rangesForInsertion_mem _ _ _ hrs p hp
+          rw [hidx] at hk
+          have := htg m hm _ (by rw [hk]; exact hat)
+          simp only at this
+          rw [hN] at hstart hend ⊢
+          exact ⟨relB_boundary _ _ _ _ this.1 hstart hend, relB_boundary _ _ _ _ this.2 hstart hend⟩
+        have hmerged := mergeCov_ends
+          (fun t => isBoundary (newOf (pre ++ g :: post)) ((newOf pre).length + min t g.data.length) = true)
+          (sortBy (fun a b => decide (a.1 ≤ b.1)) rs) none (by simp)
+          (fun p hp => hR p ((mem_sortBy _ _ _).1 hp))
+        obtain ⟨t1, t2, e1, e2, g1, g2⟩ := gapAttrs_ends
+          (fun t => isBoundary (newOf (pre ++ g :: post)) ((newOf pre).length + t) = true)
+          s.newPos g.data.length c.author c.ts hend _ hmerged 0 (by simpa using hstart) a ha
+        rw [hnp] at e1 e2
+        exact ⟨by rw [e1]; exact g1, by rw [e2]; exact g2⟩
+    · split at h
+      · cases h
+      · cases h
+        intro a ha
+        simp only [List.mem_append, List.mem_singleton] at ha
+        rcases ha with ha | rfl
+        · exact hout a ha
+        · rw [hnp]; exact ⟨hstart, hend⟩
+
+theorem insCount_append (l1 l2 : List Seg) : insCount (l1 ++ l2) = insCount l1 + insCount l2 := by
+  induction l1 with
+  | nil => simp [insCount]
+  | cons x xs ih => simp only [List.cons_append, insCount, ih]; omega
+
+theorem runSegs_boundaries (c : Ctx) (segs : List Seg) (hins : c.ins = insertions segs)
+    (hok : SegStartsOk segs) (hold : ∀ x ∈ c.old, OnB (oldOf segs) x) (htg : TargetsOk segs c.moves) :
+    ∀ (rest pre : List Seg) (s s' : St), segs = pre ++ rest → s.newPos = (newOf pre).length →
+      s.oldPos = (oldOf pre).length → s.insIdx = insCount pre →
+      (∀ a ∈ s.out, OnB (newOf segs) a) → runSegs c s rest = .ok s' → ∀ a ∈ s'.out, OnB (newOf segs) a := by
+  intro rest
+  induction rest with
+  | nil =>
+    intro pre s s' _ _ _ _ hout h
+    simp only [runSegs, Except.ok.injEq] at h
+    subst h; exact hout
+  | cons g r ih =>
+    intro pre s s' hsegs hnp hop hidx hout h
+    simp only [runSegs] at h
+    split at h
+    · cases h
+    · rename_i s1 h1
+      subst hsegs
+      have hout1 := step_boundaries c pre r g hins hok hold htg s s1 hnp hop hidx hout h1
+      have e1 := step_newPos c s s1 g h1
+      have e2 := (step_oldPos c s s1 g h1).1
+      have e3 := step_insIdx c s s1 g h1
+      refine ih (pre ++ [g]) s1 s' (by simp) ?_ ?_ ?_ hout1 h
+      · rw [e1, hnp, newOf_append, List.length_append]
+        cases hg : g.op <;> simp [newOf, Seg.newLen, hg]
+      · rw [e2, hop, oldOf_append, List.length_append]
+        cases hg : g.op <;> simp [oldOf, hg]
+      · rw [e3, hidx]
+        rw [insCount_append]; simp [insCount]
+
+theorem transform_boundaries (segs : List Seg) (subst : List (Nat × Nat)) (moves : List Move)
+    (old : List Attr) (author : Str) (ts : Nat) (out : List Attr) (hok : SegStartsOk segs)
+    (hold : ∀ x ∈ old, OnB (oldOf segs) x) (htg : TargetsOk segs moves)
+    (h : transform segs subst moves old author ts = .ok out) : ∀ a ∈ out, OnB (newOf segs) a := by
+  simp only [transform] at h
+  split at h
+  · cases h
+  · rename_i s hrun
+    cases h
+    exact runSegs_boundaries ⟨old, author, ts, insertions segs, moves, subst⟩ segs rfl hok hold htg
+      segs [] St.init s rfl rfl rfl rfl (by intro a ha; simp [St.init] at ha) hrun
+
+theorem merge_boundaries (t : Text) (l : List Attr) (h : ∀ a ∈ l, OnB t a) : ∀ a ∈ merge l, OnB t a := by
+  intro a ha
+  simp only [merge] at ha
+  split at ha
+  · exact h a ha
+  · refine coalesce_forall (OnB t) ?_ _ none (by simp) ?_ a ha
+    · intro l a hl ha
+      exact ⟨hl.1, max_cases (fun n => isBoundary t n = true) _ _ hl.2 ha.2⟩
+    · intro x hx
+      exact h x ((mem_sortBy _ _ _).1 (mem_dedupAdj _ x hx))
 
 end GitAi.Tracker
